@@ -45,6 +45,9 @@ type vhtunConn struct {
 	Closer string `json:"closer"` // client | upstream
 	Mode   string `json:"mode"`   // full: both directions, close after both streams arrived; half: closer writes then closes at once
 	Seed   int    `json:"seed"`
+	// PauseMs (mode half): the reading end stops after its first KiB for this long - the writer has long closed by then - and
+	// only then reads on to the end of the stream
+	PauseMs int `json:"pause_ms"`
 }
 
 type vhtunScenario struct {
@@ -377,7 +380,23 @@ func vhtunRunConn(env *vhtunEnv, spec vhtunConn) (out vhtunConnOut) {
 		wg.Add(1)
 		var got []byte
 		var rerr error
-		go func() { defer wg.Done(); got, rerr = rd(otherConn, -1, bufs) }()
+		go func() {
+			defer wg.Done()
+			if spec.PauseMs > 0 && len(data) > 1024 {
+				var first []byte
+				first, rerr = rd(otherConn, 1024, bufs)
+				if rerr == nil {
+					time.Sleep(time.Duration(spec.PauseMs) * time.Millisecond)
+					var rest []byte
+					rest, rerr = rd(otherConn, -1, bufs)
+					got = append(first, rest...)
+				} else {
+					got = first
+				}
+				return
+			}
+			got, rerr = rd(otherConn, -1, bufs)
+		}()
 		if err := vhtunWrite(closerConn, data, chunks); err != nil {
 			addErr(err.Error())
 		}
